@@ -26,7 +26,9 @@ import (
 
 // codeRunner interprets its calldata as a script:
 //
-//	0x01 kind(1) target(20) len(2) payload(len)   perform a call of that kind (0 CALL, 1 STATICCALL, 2 DELEGATECALL, 3 CALLCODE), ignore its result
+//	0x01 kind(1) target(20) len(2) payload(len)   perform a call of that kind (0 CALL, 1 STATICCALL, 2 DELEGATECALL, 3 CALLCODE), ignore its result;
+//	                                              kind 4 = "probe": a CALL whose return data is published as a LOG0 of the runner (only
+//	                                              in the root frame, which is never read-only): what a view method answers *inside* the transaction
 //	0x02                                           RETURN
 //	0x03                                           REVERT
 //
@@ -45,10 +47,13 @@ var codeRunner = asm(
 	"DUP3", "PUSH1", 22, "ADD", "CALLDATALOAD", "PUSH1", 240, "SHR",
 	"DUP1", "DUP5", "PUSH1", 24, "ADD", "PUSH1", 0, "CALLDATACOPY",
 	"DUP3", "ISZERO", "PUSH@", "kcall", "JUMPI",
+	"DUP3", "PUSH1", 4, "EQ", "PUSH@", "kprobe", "JUMPI",
 	"DUP3", "PUSH1", 1, "EQ", "PUSH@", "kstatic", "JUMPI",
 	"DUP3", "PUSH1", 2, "EQ", "PUSH@", "kdeleg", "JUMPI",
 	"PUSH1", 0, "PUSH1", 0, "DUP3", "PUSH1", 0, "PUSH1", 0, "DUP7", "GAS", "PUSH1", 1, "SHR", "CALLCODE", "PUSH@", "after", "JUMP",
 	"@kcall", "JUMPDEST", "PUSH1", 0, "PUSH1", 0, "DUP3", "PUSH1", 0, "PUSH1", 0, "DUP7", "GAS", "PUSH1", 1, "SHR", "CALL", "PUSH@", "after", "JUMP",
+	"@kprobe", "JUMPDEST", "PUSH1", 0, "PUSH1", 0, "DUP3", "PUSH1", 0, "PUSH1", 0, "DUP7", "GAS", "PUSH1", 1, "SHR", "CALL",
+	"RETURNDATASIZE", "PUSH1", 0, "PUSH1", 0, "RETURNDATACOPY", "RETURNDATASIZE", "PUSH1", 0, "LOG0", "PUSH@", "after", "JUMP",
 	"@kstatic", "JUMPDEST", "PUSH1", 0, "PUSH1", 0, "DUP3", "PUSH1", 0, "DUP6", "GAS", "PUSH1", 1, "SHR", "STATICCALL", "PUSH@", "after", "JUMP",
 	"@kdeleg", "JUMPDEST", "PUSH1", 0, "PUSH1", 0, "DUP3", "PUSH1", 0, "DUP6", "GAS", "PUSH1", 1, "SHR", "DELEGATECALL",
 	"@after", "JUMPDEST", "POP", "SWAP1", "POP", "SWAP1", "POP", "ADD", "PUSH1", 24, "ADD", "PUSH@", "loop", "JUMP",
@@ -65,9 +70,13 @@ type tnode struct {
 	target int
 	rev    bool
 	kids   []*tnode
+	probe  bool // a view call of the root frame whose answer is logged (written `V<tok>.<method>.<a>.<b>`)
 }
 
 func (n *tnode) String() string {
+	if n.probe {
+		return fmt.Sprintf("V%d.%s.%d.%d", n.tok, n.method, n.a, n.b)
+	}
 	if n.pc {
 		return fmt.Sprintf("P%d.%d.%s.%d.%d.%s", n.kind, n.tok, n.method, n.a, n.b, n.amt.String())
 	}
@@ -104,6 +113,10 @@ func (f *ercFixture) encodeBody(kids []*tnode, rev bool) []byte {
 			case "burn":
 				input = pack(k.method, k.amt)
 			}
+			if k.probe {
+				out = append(out, record(4, f.tokens[k.tok], input)...)
+				continue
+			}
 			out = append(out, record(k.kind, f.tokens[k.tok], input)...)
 		} else {
 			out = append(out, record(k.kind, f.addrs[k.target], f.encodeBody(k.kids, k.rev))...)
@@ -124,6 +137,7 @@ func TestEngineCalltree(t *testing.T) {
 	p := hx.NewProto("calltree")
 	defer p.Close()
 	f, _ := newErcFixture(t, p, true)
+	f.probeRng = hx.NewRng(seed ^ 0x9e0be)
 
 	others := []int{1, 2, 3, 4, 5, 6, 7, 0, 90}
 	var gen func(depth int, self int, static bool) []*tnode
@@ -288,6 +302,15 @@ func staticWrites(kids []*tnode, static bool, reverted bool, out *[][2]int) {
 }
 
 func (f *ercFixture) runTree(p *hx.Proto, root int, body []*tnode) {
+	if f.probeRng != nil && f.probeRng.Chance(1, 2) {
+		// what the view methods answer inside the transaction, after everything else (reverted frames included) has run
+		body = append(append([]*tnode{}, body...), &tnode{pc: true, probe: true, tok: 50 + f.probeRng.Intn(2), method: "totalSupply", amt: big.NewInt(0)})
+		body = append(body, &tnode{pc: true, probe: true, tok: 50 + f.probeRng.Intn(2), method: "balanceOf", a: hx.Pick(f.probeRng, []int{root, 5, 6, 1, 2}), amt: big.NewInt(0)})
+		if f.probeRng.Chance(1, 2) {
+			body = append(body, &tnode{pc: true, probe: true, tok: 50 + f.probeRng.Intn(2), method: "allowance", a: hx.Pick(f.probeRng, []int{root, 5, 6}), b: hx.Pick(f.probeRng, []int{5, 6, 1}), amt: big.NewInt(0)})
+		}
+		p.Count("tree:with-view-probes")
+	}
 	parts := make([]string, len(body))
 	for i, k := range body {
 		parts[i] = k.String()
@@ -313,6 +336,10 @@ func (f *ercFixture) runTree(p *hx.Proto, root int, body []*tnode) {
 				ls = append(ls, fmt.Sprintf("T:%d:%d:%d:%s", tok, f.idOf(common.BytesToAddress(lg.Topics[1].Bytes())), f.idOf(common.BytesToAddress(lg.Topics[2].Bytes())), new(big.Int).SetBytes(lg.Data).String()))
 			} else if len(lg.Topics) == 3 && lg.Topics[0] == topicApproval {
 				ls = append(ls, fmt.Sprintf("A:%d:%d:%d:%s", tok, f.idOf(common.BytesToAddress(lg.Topics[1].Bytes())), f.idOf(common.BytesToAddress(lg.Topics[2].Bytes())), new(big.Int).SetBytes(lg.Data).String()))
+			} else if len(lg.Topics) == 0 && len(lg.Data) == 32 {
+				ls = append(ls, fmt.Sprintf("V:%s", new(big.Int).SetBytes(lg.Data).String()))
+			} else if len(lg.Topics) == 0 {
+				ls = append(ls, fmt.Sprintf("V:len%d", len(lg.Data)))
 			} else {
 				ls = append(ls, "?")
 			}
